@@ -1051,7 +1051,12 @@ func (edb *EventDb) addStat(event Event) (err error) {
 		if len(*bt) == 0 {
 			return ErrInvalidEventData
 		}
-		return edb.addBurnTicket((*bt)[0])
+		for _, ticket := range *bt {
+			if err := edb.addBurnTicket(ticket); err != nil {
+				return err
+			}
+		}
+		return nil
 	case TagAddBridgeMint:
 		// challenge pool
 		bms, ok := fromEvent[[]BridgeMint](event.Data)
